@@ -18,7 +18,10 @@ RULE = ("case = 2-5 bundles derived from one base model so that type, field, sca
         "overlap while behaviour differs (fields added / removed / retyped, different resolver sets, type resolvers, a custom "
         "scalar and a tagging directive @mark whose implementations embed the bundle label, subscription sources; a "
         "SCHEMA directive @audit and @nonIntrospectable applied by some bundles only; type-level directives partly arriving "
-        "through `extend` definitions; in 35%% of the cases one bundle is cooked from byte-identical SDL under another name). Each "
+        "through `extend` definitions; in 35%% of the cases one bundle is cooked from byte-identical SDL under another name; "
+        "35%% of the bundles use an in-place annotating error coercer; co-resident bundles are partly constructed as "
+        "Engine(schema_name=<another bundle's name>).cook(schema_name=<own name>); probes include per-bundle introspection "
+        "aliases and rule-refused documents). Each "
         "bundle is first built ALONE in a fresh subprocess and answers a probe battery (generated queries and mutations, a "
         "subscription stream, the full introspection query). Then all bundles are registered and cooked in ONE process under "
         "distinct schema names in every registration order (all permutations for <=3, sampled for 4) with independently "
